@@ -48,6 +48,9 @@ type World struct {
 	parked  []*Park
 	parkSeq uint64
 
+	// BlockWritesTo: a write to one of these destinations blocks (like Sock.BlockWrites) until the socket is closed
+	// or its write deadline passes - whichever socket it is written from, also sockets opened later.
+	BlockWritesTo map[netip.AddrPort]bool
 	// Reach reports whether a datagram from src (post-NAT) may reach dst. nil = all reachable.
 	Reach func(src, dst netip.AddrPort) bool
 	// OnSend is called (with the world lock held; must not call back) for every datagram entering the pool.
@@ -326,7 +329,7 @@ func (s *Sock) writeToAP(p []byte, dst netip.AddrPort) (int, error) {
 			s.w.mu.Unlock()
 			return 0, opErr("write", os.ErrDeadlineExceeded)
 		}
-		if !s.BlockWrites {
+		if !s.BlockWrites && !(dst.IsValid() && s.w.BlockWritesTo[netip.AddrPortFrom(dst.Addr().Unmap(), dst.Port())]) {
 			break
 		}
 		// park: wait for unblock / close / deadline change
